@@ -103,6 +103,18 @@ impl<K: Clone + Eq + Hash, V> LruTimeCache<K, V> {
     }
 }
 
+#[cfg(feature = "verif-hooks")]
+impl<K: Clone + Eq + Hash, V: Clone> LruTimeCache<K, V> {
+    /// Verification hook: the entries in list order (front = least recently used first) with the
+    /// instant stored for each. Read-only.
+    pub fn verif_dump(&self) -> Vec<(K, V, Instant)> {
+        self.map
+            .iter()
+            .map(|(k, (v, t))| (k.clone(), v.clone(), *t))
+            .collect()
+    }
+}
+
 #[cfg(test)]
 mod tests {
     use crate::lru_time_cache::LruTimeCache;
